@@ -29,6 +29,14 @@ func (m *monC02) prop(s *Sim) string {
 	return "C02"
 }
 
+// sig: the context signature of a convergence failure (identifies listed findings).
+func (m *monC02) sig(s *Sim) string {
+	if s.W.Extra["c10"] == "1" {
+		return s.c10ChurnSig()
+	}
+	return ""
+}
+
 // liveLetter: spec.template once it is the active replica set's template.
 func (s *Sim) liveLetter(e *edsv1.ExtendedDaemonSet) (string, string) {
 	l := letterOfTpl(&e.Spec.Template)
@@ -87,6 +95,11 @@ func (s *Sim) convergedEDS(def *EDSDef) (bool, string, int) {
 		if terminating(p) || !podReady(p) || p.Status.Phase != corev1.PodRunning {
 			return false, fmt.Sprintf("pod %s on %s not Ready (phase %s, terminating %v)", p.Name, n.Name, p.Status.Phase, terminating(p)), 0
 		}
+		if s.W.Extra["c10"] == "1" {
+			if why := s.c10Stale(def, &e.Spec.Template, n, p); why != "" {
+				return false, why, 0
+			}
+		}
 	}
 	for node, pods := range byNode {
 		if !nodes[node] {
@@ -133,7 +146,7 @@ func (m *monC02) RoundEnd(s *Sim, round int) {
 	if !all {
 		m.convergedAt = 0
 		if round-m.lastBusy > s.c02Bound() {
-			s.Violate(m.prop(s), "liveness", "", "not converged %d rounds after the canary ended (bound %d): %s", round-m.lastBusy, s.c02Bound(), m.lastReason)
+			s.Violate(m.prop(s), "liveness", m.sig(s), "not converged %d rounds after the canary ended (bound %d): %s", round-m.lastBusy, s.c02Bound(), m.lastReason)
 			m.done = true
 			s.stopQuiesce = true
 		}
@@ -146,7 +159,7 @@ func (m *monC02) RoundEnd(s *Sim, round int) {
 		return
 	}
 	if ops != 0 {
-		s.Violate(m.prop(s), "fixpoint", "", "round %d after convergence still issued %d pod creates/deletes", round, ops)
+		s.Violate(m.prop(s), "fixpoint", m.sig(s), "round %d after convergence still issued %d pod creates/deletes", round, ops)
 	}
 	if round >= m.convergedAt+2 {
 		m.checkStatus(s)
@@ -179,6 +192,6 @@ func (m *monC02) Quiesced(s *Sim) {
 		return
 	}
 	if m.convergedAt == 0 {
-		s.Violate(m.prop(s), "liveness", "", "not converged after %d quiesce rounds (last canary activity in round %d, bound %d): %s", s.W.Cfg.QuiesceRounds, m.lastBusy, s.c02Bound(), m.lastReason)
+		s.Violate(m.prop(s), "liveness", m.sig(s), "not converged after %d quiesce rounds (last canary activity in round %d, bound %d): %s", s.W.Cfg.QuiesceRounds, m.lastBusy, s.c02Bound(), m.lastReason)
 	}
 }
